@@ -358,7 +358,7 @@ def http_fuzz(ctx, env, watch):
     with Clock(utc(2024, 3, 5, 12, 0, 7)):
         for u in urls:
             media = u.startswith('/dash/') or u.startswith('/mps/') or u.startswith('/time/')
-            for k in range(per_url if media else 2):
+            for k in range(per_url if media else (8 if ctx.quick() else 60)):
                 role = 'anon' if media else rng.choice(['anon', 'admin'])
                 if k == 0:
                     q = ''
@@ -450,6 +450,17 @@ def valid_combinations(ctx, env, watch):
                             ctx.count('http:event-boundaries')
                             if st == 'HANG' or (isinstance(st, int) and st >= 500):
                                 sites.setdefault('http:%s' % (site or st), []).append((url, st))
+        # a stream that has not started yet (availabilityStartTime after now), every template, with and without a timeline
+        for t in ('hand_made.mpd', 'manifest_a.mpd', 'manifest_b.mpd', 'manifest_e.mpd', 'manifest_ef.mpd', 'manifest_h.mpd', 'manifest_i.mpd',
+                  'manifest_n.mpd'):
+            for base in ('/dash/live/bbb/', '/mps/live/mps1/'):
+                for q in ('start=2030-01-01T00:00:00Z', 'start=2030-01-01T00:00:00Z&timeline=1', 'start=2024-03-05T12:00:08Z&timeline=1',
+                          'start=2024-03-05T12:00:07Z', 'start=now&depth=0'):
+                    url = base + t + '?' + q
+                    st, site, r = watch.get(c, url)
+                    ctx.count('http:not-started-yet')
+                    if st == 'HANG' or (isinstance(st, int) and st >= 500):
+                        sites.setdefault('http:%s' % (site or st), []).append((url, st))
     for key, hits in sorted(sites.items()):
         ctx.violation('GET %s answers %s: %s [%d requests with legitimate option values, e.g. %s]'
                       % (hits[0][0], hits[0][1], key[5:], len(hits), ' '.join(h[0] for h in hits[1:3])),
